@@ -1145,6 +1145,121 @@ theorem mem_fetchedMap_of (ks : List Key) (k : Key) (hk : k ∈ ks) (hsep : k.se
         · exact absurd h'.symm hqk
         · exact Or.inr h'
 
+/-! ### no REVOKE-flagged key is ever tracked as pending or trusted -/
+
+/-- entry predicate: anything but a revocation marker carries no REVOKE bit. -/
+def CleanEntry (ta : TA) : Prop := isMarker ta.st = false → ta.key.revoke = false
+
+theorem seedFromLive_clean (live : List Key) (now : Nat) : ∀ ta ∈ seedFromLive live now, CleanEntry ta := by
+  unfold seedFromLive
+  suffices ∀ acc : List TA, (∀ x ∈ acc, CleanEntry x) → ∀ x ∈ live.foldl (fun acc k =>
+      if k.sep then insertTA acc { key := k, st := if k.revoke then .revoked else .valid, firstSeen := now }
+      else acc) acc, CleanEntry x from this [] (by intro x hx; cases hx)
+  induction live with
+  | nil => intro acc hacc x hx; exact hacc x (by simpa using hx)
+  | cons k rest ih =>
+    intro acc hacc
+    simp only [List.foldl_cons]
+    apply ih
+    intro x hx
+    split at hx
+    · unfold insertTA at hx
+      rcases List.mem_append.mp hx with h1 | h1
+      · exact hacc x (List.mem_filter.mp h1).1
+      · simp only [List.mem_singleton] at h1
+        subst h1
+        intro hnm
+        cases hr : k.revoke with
+        | false => rfl
+        | true => simp [hr, isMarker] at hnm
+    · exact hacc x hx
+
+theorem mergeCfg_clean (cfg : List Key) (cur : List TA) (tomb : List Nat) (now : Nat)
+    (hcur : ∀ x ∈ cur, CleanEntry x) : ∀ x ∈ (mergeCfg cfg cur tomb now).1, CleanEntry x := by
+  unfold mergeCfg
+  suffices ∀ acc : List TA × List Nat, (∀ x ∈ acc.1, CleanEntry x) →
+      ∀ x ∈ (cfg.foldl (mergeStep now) acc).1, CleanEntry x from this (cur, tomb) hcur
+  induction cfg with
+  | nil => intro acc hacc x hx; exact hacc x (by simpa using hx)
+  | cons k rest ih =>
+    intro acc hacc
+    simp only [List.foldl_cons]
+    apply ih
+    intro x hx
+    unfold mergeStep at hx
+    split at hx
+    · exact hacc x hx
+    · split at hx
+      · exact hacc x hx
+      · split at hx
+        · exact hacc x hx
+        · split at hx
+          · exact hacc x hx
+          · next hr =>
+            rcases List.mem_append.mp hx with h3 | h3
+            · exact hacc x h3
+            · simp only [List.mem_singleton] at h3
+              subst h3
+              intro _
+              simpa using hr
+
+theorem prepare_clean (cfg : List Key) (cur0 : List TA) (tomb0 : List Nat) (now : Nat)
+    (h : ∀ x ∈ cur0, CleanEntry x) : ∀ x ∈ (prepare cfg cur0 tomb0 now).1, CleanEntry x := by
+  unfold prepare
+  apply mergeCfg_clean
+  intro x hx
+  unfold precedence at hx
+  exact h x (List.mem_filter.mp hx).1
+
+theorem holdStep_clean {P : Params} {tags : List Nat} {now : Nat} {ta ta' : TA}
+    (h : holdStep P tags now ta = some ta') (hc : CleanEntry ta) : CleanEntry ta' := by
+  obtain ⟨hk, hm⟩ := holdStep_key h
+  intro hnm
+  rw [hk]
+  apply hc
+  cases hmk : isMarker ta.st with
+  | false => rfl
+  | true => rw [hm hmk] at hnm; rw [hmk] at hnm; cases hnm
+
+theorem process_clean (P : Params) (f : Fetch) (ro : Bool) (now : Nat) (cur : List TA) (tomb : List Nat)
+    (h : ∀ x ∈ cur, CleanEntry x) : ∀ x ∈ (process P f ro now cur tomb).cur, CleanEntry x := by
+  have hloop : ∀ x ∈ ((sortByTag (fetchedMap f.all)).foldl
+      (procFetched (stage cur tomb f (sortByTag (fetchedMap f.all))) ro now) { cur := cur, tomb := tomb }).cur,
+      CleanEntry x := by
+    apply foldl_procFetched_all
+    · exact h
+    · intro k _ old _ _ _ _ _ hnm; simp [isMarker] at hnm
+    · intro k _ _ hr _; exact hr
+  unfold process
+  simp only
+  split
+  · exact hloop
+  · intro x hx
+    simp only at hx
+    unfold holdDown at hx
+    obtain ⟨t0, ht0, hs⟩ := List.mem_filterMap.mp hx
+    exact holdStep_clean hs (hloop t0 ht0)
+
+theorem candidate_clean (cur : List TA) (h : ∀ x ∈ cur, CleanEntry x) : ∀ k ∈ candidate cur, k.revoke = false := by
+  intro k hk
+  obtain ⟨ta, hta, rfl, htr⟩ := candidate_mem cur k hk
+  exact h ta hta (trusted_not_marker htr)
+
+theorem startupKeys_clean (cfg : List Key) (d : Disk) (fl : Faults) : ∀ k ∈ startupKeys cfg d fl, k.revoke = false := by
+  intro k hk
+  unfold startupKeys at hk
+  split at hk
+  · cases hk
+  · cases htomb : d.tomb <;> simp only [htomb] at hk
+    · have := (List.mem_filter.mp hk).2
+      simp only [Bool.not_eq_eq_eq_not, Bool.not_true, Bool.or_eq_false_iff] at this
+      exact this.2
+    · cases hk
+    · cases hk
+    · have := (List.mem_filter.mp hk).2
+      simp only [Bool.not_eq_eq_eq_not, Bool.not_true, Bool.or_eq_false_iff] at this
+      exact this.2
+
 /-! ## Specification vocabulary of `Props/C09.lean` and the lemmas about it
 
 `Barred`, `HistOK` (revocation records), `RevocationOf` (what a revocation-only
